@@ -1,5 +1,6 @@
 import Bpmn.Lemmas.Tracer
 import Bpmn.Lemmas.TracerProgress
+import Bpmn.Lemmas.FlowOrder
 import Bpmn.Spec.Causal
 /-!
 # C09 — the trace stream is one causally consistent total order, the same for all subscribers
@@ -306,5 +307,140 @@ theorem progress_dichotomy (drains : Bool) : ProgressClaim drains := by
     intro cfg hdr sched s hs hm
     exact tracer_unsub_progress cfg hdr sched s hs hm
   | false => exact ⟨nodrainSched, tracer_nodrain_deadlock⟩
+
+
+/-! ## 5. a relay (`NewRelay`, `subProcess.run`) is a subscriber: it forwards what it was subscribed for
+
+By `tracer_segment` a subscriber holds `log[start, upto)`: what it misses is exactly `log.take start`, the traces the
+broadcaster took before it appended the channel. A relay therefore forwards the whole inner stream iff it is
+subscribed before the first inner `Send` begins. -/
+
+/-- a subscriber that is in the list before any `Send` has begun holds the whole stream, whatever happens later -/
+theorem relay_lossless_if_subscribed_first (cfg : Cfg) (pre post : List Act) (c : Nat)
+    (hpre : ∀ a ∈ pre, a.isSend = false) (s : St) (hs : s = run cfg init (pre ++ post))
+    (hm : s.misuse = false)
+    (hc : ((run cfg init pre).chan c).stat ≠ .absent ∧ ((run cfg init pre).chan c).stat ≠ .subWait) :
+    (s.chan c).start = 0 ∧
+    (s.chan c).recvd ++ (s.chan c).drained ++ (s.chan c).buf = s.log.take (s.upto c) := by
+  rw [run_append] at hs
+  have hf0 : ((run cfg init pre).chan c).stat.fresh = false := by
+    cases hst : ((run cfg init pre).chan c).stat <;> simp_all [CStat.fresh]
+  have hlog : (run cfg init pre).log = [] := run_nosend cfg pre hpre init ⟨rfl, rfl⟩
+  have h0 : (run cfg init pre).misuse = false → Inv (run cfg init pre) ∧
+      ((run cfg init pre).chan c).stat.fresh = false ∧ ((run cfg init pre).chan c).start = 0 := by
+    intro hm0
+    have hinv := inv_run cfg pre hm0
+    refine ⟨hinv, hf0, ?_⟩
+    have h1 := hinv.startLe c hf0
+    have h2 := hinv.upto_le c
+    rw [hlog] at h2
+    simp at h2
+    omega
+  have := start_zero_run cfg c post (run cfg init pre) h0 (by rw [← hs]; exact hm)
+  rw [← hs] at this
+  obtain ⟨hinv, hf, hz⟩ := this
+  refine ⟨hz, ?_⟩
+  have hseg := hinv.seg c hf
+  unfold Chan.total St.segment at hseg
+  rw [hz] at hseg
+  simpa using hseg
+
+/-- the inner flow sends `NewFlowTrace`, `VisitTrace` (7:0, 7:1); only then is the relay's subscription accepted; a third
+trace follows -/
+def lateRelaySched : List Act :=
+  [ .callSend 7, .recvTrace 0, .callSend 7, .recvTrace 0,
+    .callSub 10, .recvSub 0, .subReturn 0,
+    .callSend 7, .recvTrace 0, .push, .consume 0 ]
+
+/-- subscribed after the first sends (subprocess.go `run`: `sp.startAll(ctx)` before `sp.subTracer.Subscribe()`), the
+relay never sees them: its segment starts at position 2 -/
+theorem relay_late_subscription_loses_prefix :
+    let s := run {} init lateRelaySched
+    s.misuse = false ∧ (s.chan 0).stat = .active ∧ s.log = [⟨7, 0⟩, ⟨7, 1⟩, ⟨7, 2⟩] ∧
+    (s.chan 0).start = 2 ∧ (s.chan 0).recvd = [⟨7, 2⟩] ∧ (s.chan 0).buf = [] ∧ s.pc = .idle := by
+  refine ⟨rfl, rfl, rfl, rfl, rfl, rfl, rfl⟩
+
+/-- what is claimed at a given value of the fact "subProcess.run subscribes to the inner tracer before it starts the
+inner flows" -/
+def RelayClaim (subscribesFirst : Bool) : Prop :=
+  if subscribesFirst then
+    ∀ (cfg : Cfg) (pre post : List Act) (c : Nat), (∀ a ∈ pre, a.isSend = false) →
+      ∀ s, s = run cfg init (pre ++ post) → s.misuse = false →
+      (((run cfg init pre).chan c).stat ≠ .absent ∧ ((run cfg init pre).chan c).stat ≠ .subWait) →
+      (s.chan c).start = 0 ∧ (s.chan c).recvd ++ (s.chan c).drained ++ (s.chan c).buf = s.log.take (s.upto c)
+  else
+    ∃ sched c, (run {} init sched).misuse = false ∧ ((run {} init sched).chan c).stat = .active ∧
+      (run {} init sched).pc = .idle ∧ 0 < ((run {} init sched).chan c).start
+
+theorem relay_dichotomy (b : Bool) : RelayClaim b := by
+  cases b with
+  | true =>
+    intro cfg pre post c hpre s hs hm hc
+    exact relay_lossless_if_subscribed_first cfg pre post c hpre s hs hm hc
+  | false => exact ⟨lateRelaySched, 0, rfl, rfl, rfl, by decide⟩
+
+/-! ## 6. the causality grammar -/
+
+open Bpmn.Model.FlowOrder Bpmn.Spec in
+/-- `flows_causal`. Over one tracer (total order, program order, a `Send` returns only once the trace is in the order),
+the sending discipline of flow.go — `NewFlowTrace`, `VisitTrace`; per move `LeaveTrace`, `VisitTrace`, then the
+`FlowTrace` listing the continuing flow and the fresh ids of the additional flows, and only THEN their goroutines;
+`TerminationTrace` immediately before returning; `CeaseFlowTrace` after every flow goroutine has returned — yields,
+for every number of flows, every branching and every interleaving (`sched` arbitrary), a history that satisfies the
+grammar: the announcement precedes every trace of an announced flow, visit precedes leave per node occurrence, nothing
+of a flow follows its termination, nothing of any flow follows the cease trace. -/
+theorem flows_causal (sched : List FAct) : causal (frun finit sched).log = true := by
+  obtain ⟨sc, h, _⟩ := good_run sched finit good_init
+  simp [causal, firstViolation, h]
+
+open Bpmn.Model.FlowOrder Bpmn.Spec in
+/-- non-vacuity: a fork. Flow 0 starts at node 10, moves to node 11 announcing flows 1 and 2 (started at nodes 12 and
+13), which run concurrently with it; flow 1 terminates; the history is the expected one -/
+example :
+    (frun finit [.root 10, .send 0, .send 0, .move 0 11 [12, 13], .send 0, .send 0,
+                 .send 2, .send 1, .send 1, .send 2, .term 1, .other]).log =
+    [.newflow 0, .visit 10, .leave 10, .visit 11, .flow 10 [0, 1, 2],
+     .newflow 2, .newflow 1, .visit 12, .visit 13, .term 1, .other] := rfl
+
+open Bpmn.Spec in
+/-- the predicate is not trivially true: each rule rejects a history -/
+example :
+    causal [.newflow 0, .visit 1, .newflow 5, .leave 1, .visit 2, .flow 1 [0, 5]] = false ∧   -- flow 5 seen before its announcement
+    causal [.newflow 0, .leave 1] = false ∧                                                    -- leave before visit
+    causal [.newflow 0, .visit 1, .term 0, .flow 1 [0]] = false ∧                              -- trace after termination
+    causal [.newflow 0, .visit 1, .term 0, .cease, .visit 1] = false ∧                         -- flow trace after cease
+    causal [.visit 1, .flow 1 [3]] = false ∧                                                   -- FlowTrace before NewFlowTrace
+    causal [.newflow 0, .visit 1, .leave 1, .visit 2, .flow 1 [0, 5], .newflow 5, .visit 3, .term 5, .term 0, .cease, .other] = true := by
+  decide
+
+/-! ## the statement -/
+
+/-- C09 on the model, in full. (`ProgressClaim true` is the no-deadlock part at the value of the drain fact the code
+has; `relay_dichotomy` and `progress_dichotomy` carry the other values.) -/
+def C09_statement : Prop :=
+  -- every subscriber: a contiguous segment of the one global order, for all schedules
+  (∀ (cfg : Cfg) (sched : List Act) (s : St), s = run cfg init sched → s.misuse = false →
+    ∀ c, (s.chan c).stat ≠ .absent → (s.chan c).stat ≠ .subWait →
+      (s.chan c).recvd ++ (s.chan c).drained ++ (s.chan c).buf = (s.log.take (s.upto c)).drop (s.chan c).start) ∧
+  -- same order for all, nothing dropped or duplicated
+  (∀ (cfg : Cfg) (sched : List Act) (s : St), s = run cfg init sched → s.misuse = false →
+    ∀ c k m, (s.chan c).recvd[k]? = some m → s.log[(s.chan c).start + k]? = some m) ∧
+  -- the global order extends every sender's program order
+  (∀ (cfg : Cfg) (sched : List Act) (sd : Nat) (s : St), s = run cfg init sched →
+    ((s.log.filter (fun m => m.sender == sd)).map (·.seq)) =
+      List.range ((s.log.filter (fun m => m.sender == sd)).length)) ∧
+  -- concurrent Subscribe / Unsubscribe / Send: bounded progress, no deadlock
+  ProgressClaim true ∧
+  -- removal leaves the other subscribers alone
+  (∀ (cfg : Cfg) (sched : List Act) (c : Nat) (s : St), s = run cfg init sched → s.misuse = false → c ∈ s.subs →
+    (s.removeSub c).subs.Nodup ∧ (∀ j, j ∈ (s.removeSub c).subs ↔ (j ∈ s.subs ∧ j ≠ c)) ∧
+    ∀ j, j ≠ c → (s.removeSub c).chan j = s.chan j) ∧
+  -- the causality grammar, for every interleaving of flows that send as flow.go does
+  (∀ sched : List Bpmn.Model.FlowOrder.FAct,
+    Bpmn.Spec.causal (Bpmn.Model.FlowOrder.frun Bpmn.Model.FlowOrder.finit sched).log = true)
+
+theorem C09_holds : C09_statement :=
+  ⟨tracer_segment, tracer_same_order, tracer_sender_order, progress_dichotomy true,
+   tracer_removal_keeps_others, flows_causal⟩
 
 end Bpmn.Props.C09
